@@ -15,6 +15,12 @@ The alignment formula is the one of the D-11 fix (`beg = align_up(base + offset)
 *absolute* address is aligned); the formula of the code before the fix is kept as `Arena.relBeg`.
 They coincide whenever `align ∣ base` (`Props/C11.lean: absBeg_eq_relBeg`).
 
+Second half of the file: `ArenaString` (`src/arena/string.rs`), i.e. a `Vec<u8, &Arena>` driven through
+std's `RawVec` growth policy (`reserveCap` / `reserveExactCap`, tied to the compiled crate by the
+probe table `Gen.Arena.reserveProbe`), with the raw writes of `extend_from_slice` and of the unsafe
+`vec_replace_impl` modelled as writes through the buffer pointer that are NOT confined to the block
+by definition — that they stay inside it is a theorem (`Props/C11.lean`, section "strings").
+
 Not modelled: failure of `mprotect` in `virtual_memory::commit` (taken to succeed), `mmap` failure in
 `Arena::new`, `alloc_uninit_slice`'s unchecked multiplication (DESIGN.md §7).
 -/
@@ -146,6 +152,9 @@ structure Block where
   len   : Nat
   align : Nat
   data  : Nat → Nat
+  /-- For the buffer of an `ArenaString` / `Vec<u8,&Arena>`: the vector's length (`len` is then its
+  capacity and the string is `data 0 … data (used-1)`); 0 for every other block. -/
+  used  : Nat := 0
 
 /-- Two blocks share no byte. -/
 def Disj (b c : Block) : Prop :=
@@ -167,6 +176,21 @@ inductive Op where
   | decommit
   | borrow
   | release
+  /-- `ArenaString::reserve(additional)` / `reserve_exact(additional)` on the string whose buffer is
+  block `id` (no such block = a string that has not allocated yet: capacity 0). -/
+  | sReserve (id additional : Nat) (exact : Bool)
+  /-- `push_str(src)`; also `push(ch)` (`src` = the UTF-8 bytes of `ch`) and `push_repeat(ch, n)`
+  (`src` = `n` copies): one `reserve(src.length)` followed by a raw copy behind the old length. -/
+  | sPush (id : Nat) (src : List Nat)
+  /-- `shrink_to_fit()`. -/
+  | sShrink (id : Nat)
+  /-- `clear()`. -/
+  | sClear (id : Nat)
+  /-- `Vec::<u8,&Arena>::replace_range(lo..hi, src)` = `vec_replace_impl` (what
+  `ArenaString::replace_range` calls once its char-boundary assertions have passed). -/
+  | sReplace (id lo hi : Nat) (src : List Nat)
+  /-- `replace_once_in_place(old, new)`. -/
+  | sOnce (id : Nat) (old new : List Nat)
 
 def findBlk (live : List Block) (id : Nat) : Option Block := live.find? (fun b => b.id == id)
 
@@ -175,40 +199,178 @@ def dropBlk (live : List Block) (id : Nat) : List Block := live.eraseP (fun b =>
 /-- Blocks that survive giving back everything at or above `m`. -/
 def below (live : List Block) (m : Nat) : List Block := live.filter (fun c => decide (c.beg + c.len ≤ m))
 
-/-- One client operation.  Requests outside the allocator's contract leave the state alone (the line
-protocol answers `bad-op` for them and makes no call): alignment 0 (excluded by `Layout`), a block
-that is not live, growing to a smaller / shrinking to a larger size, shrinking a block that is not
-the tail (a `debug_assert!(false)`), resetting or releasing to a mark above the current offset. -/
-def step (s : St) : Op → St
-  | .alloc id bytes align zeroed =>
-      if align = 0 then s else
-      match (if zeroed then s.a.allocZeroed bytes align else s.a.alloc bytes align) with
+/-! ### The allocator calls (ghost list of live blocks kept alongside)
+
+Requests outside the allocator's contract leave the state alone (the line protocol answers `bad-op`
+for them and makes no call): alignment 0 (excluded by `Layout`), a block that is not live, growing
+to a smaller / shrinking to a larger size or below the length of the vector living in the block,
+shrinking a block that is not the tail (a `debug_assert!(false)`), resetting or releasing to a mark
+above the current offset. -/
+
+def St.allocBlk (s : St) (id bytes align : Nat) (zeroed : Bool) : St :=
+  if align = 0 then s else
+  match (if zeroed then s.a.allocZeroed bytes align else s.a.alloc bytes align) with
+  | none => s
+  | some (beg, a') =>
+      { s with a := a'
+               live := { id := id, beg := beg, len := bytes, align := align,
+                         data := fun k => a'.mem (beg + k) } :: s.live }
+
+def St.growBlk (s : St) (id newSize : Nat) : St :=
+  match findBlk s.live id with
+  | none => s
+  | some b =>
+      if newSize < b.len then s else
+      match s.a.grow b.beg b.len newSize b.align with
       | none => s
-      | some (beg, a') =>
+      | some (nb, a') =>
           { s with a := a'
-                   live := { id := id, beg := beg, len := bytes, align := align,
-                             data := fun k => a'.mem (beg + k) } :: s.live }
-  | .grow id newSize =>
-      match findBlk s.live id with
-      | none => s
-      | some b =>
-          if newSize < b.len then s else
-          match s.a.grow b.beg b.len newSize b.align with
-          | none => s
-          | some (nb, a') =>
-              { s with a := a'
-                       live := { id := id, beg := nb, len := newSize, align := b.align,
-                                 data := fun k => if k < b.len then b.data k else a'.mem (nb + k) }
-                               :: dropBlk s.live id }
-  | .shrink id newSize =>
-      match findBlk s.live id with
-      | none => s
-      | some b =>
-          if newSize ≤ b.len ∧ b.beg + b.len = s.a.offset then
-            let a' := (s.a.shrink b.beg b.len newSize).2
-            { s with a := a'
-                     live := { b with len := newSize } :: below (dropBlk s.live id) a'.offset }
-          else s
+                   live := { id := id, beg := nb, len := newSize, align := b.align,
+                             data := fun k => if k < b.len then b.data k else a'.mem (nb + k),
+                             used := b.used }
+                           :: dropBlk s.live id }
+
+def St.shrinkBlk (s : St) (id newSize : Nat) : St :=
+  match findBlk s.live id with
+  | none => s
+  | some b =>
+      if newSize ≤ b.len ∧ b.beg + b.len = s.a.offset ∧ b.used ≤ newSize then
+        let a' := (s.a.shrink b.beg b.len newSize).2
+        { s with a := a'
+                 live := { b with len := newSize } :: below (dropBlk s.live id) a'.offset }
+      else s
+
+/-! ### `ArenaString` = `Vec<u8, &Arena>` over std's `RawVec` -/
+
+/-- Capacity after `Vec::<u8,_>::reserve(additional)` (`RawVec::grow_amortized`): untouched when the
+spare room suffices, else `max(2·cap, len + additional, 8)` (8 = `min_non_zero_cap` for bytes). -/
+def reserveCap (cap len additional : Nat) : Nat :=
+  if additional ≤ cap - len then cap else max (max (cap * 2) (len + additional)) 8
+
+/-- Capacity after `Vec::<u8,_>::reserve_exact(additional)` (`RawVec::grow_exact`). -/
+def reserveExactCap (cap len additional : Nat) : Nat :=
+  if additional ≤ cap - len then cap else len + additional
+
+/-- `(capacity, length)` of the string whose buffer is block `id`; no buffer = `(0, 0)`. -/
+def strDims (s : St) (id : Nat) : Nat × Nat :=
+  match findBlk s.live id with
+  | some b => (b.len, b.used)
+  | none => (0, 0)
+
+/-- `RawVec::finish_grow` to a capacity of `newCap` bytes (nothing to do when the buffer already has
+them): `allocate` when there is no buffer yet, `Allocator::grow` otherwise.  `none` = the allocator
+said no, which `Vec::reserve` turns into `handle_alloc_error` (the process aborts). -/
+def strEnsure (s : St) (id newCap : Nat) : Option St :=
+  match findBlk s.live id with
+  | none =>
+      if newCap = 0 then some s
+      else if (s.a.alloc newCap 1).isSome then some (s.allocBlk id newCap 1 false) else none
+  | some b =>
+      if newCap ≤ b.len then some s
+      else if (s.a.grow b.beg b.len newCap b.align).isSome then some (s.growBlk id newCap) else none
+
+/-- A write by the string's owner THROUGH THE BUFFER POINTER followed by `set_len(used')`: memory
+becomes `w beg mem` where `beg` is the start of the buffer.  Nothing in this definition confines the
+write to the block — that is what the unsafe code has to guarantee. -/
+def strWrite (s : St) (id : Nat) (w : Nat → Mem → Mem) (used' : Nat) : St :=
+  match findBlk s.live id with
+  | none => s
+  | some b =>
+      let mem' := w b.beg s.a.mem
+      { s with a := { s.a with mem := mem' }
+               live := { b with used := used', data := fun k => mem' (b.beg + k) } :: dropBlk s.live id }
+
+/-- Byte `k` of a source slice (held as an array: the driver reads memory through these closures). -/
+def srcAt (src : Array Nat) (k : Nat) : Nat := src.getD k 0
+
+def St.strReserve (s : St) (id additional : Nat) (exact : Bool) : St :=
+  let (cap, len) := strDims s id
+  match strEnsure s id (if exact then reserveExactCap cap len additional else reserveCap cap len additional) with
+  | none => s
+  | some s1 => s1
+
+/-- `Vec::extend_from_slice`: `reserve(n)`, `copy_nonoverlapping(src, ptr + len, n)`, `len += n`. -/
+def St.strPush (s : St) (id : Nat) (src : List Nat) : St :=
+  let (cap, len) := strDims s id
+  let bytes := src.toArray
+  match strEnsure s id (reserveCap cap len src.length) with
+  | none => s
+  | some s1 => strWrite s1 id (fun beg m => m.store (beg + len) src.length (srcAt bytes)) (len + src.length)
+
+/-- `Vec::shrink_to_fit`: nothing when `cap = len`; `deallocate` (a no-op of the arena) when the
+vector is empty: the vector forgets its buffer — the ghost record keeps a block of length 0 under
+the string's name, which is what "no buffer" looks like to every other operation; `Allocator::shrink`
+otherwise, which is only legal for the tail block (elsewhere: `debug_assert!(false)`, the request is
+outside the contract). -/
+def St.strShrink (s : St) (id : Nat) : St :=
+  match findBlk s.live id with
+  | none => s
+  | some b =>
+      if b.len ≤ b.used then s
+      else if b.used = 0 then { s with live := { b with len := 0 } :: dropBlk s.live id }
+      else s.shrinkBlk id b.used
+
+/-- What `vec_replace_impl` asks `Vec::reserve` for, as a function of `(cap, len, del, srcLen)`.
+The pinned code: `if src_len > del_len { dst.reserve(src_len - del_len) }` (`reserve(0)` is a no-op). -/
+def pinnedRule (_cap _len del srcLen : Nat) : Nat := srcLen - del
+
+/-- The rule of seeded change C11-c2: `if new_len > capacity { reserve(new_len - capacity) }` — wrong,
+because `Vec::reserve` counts from the length. -/
+def seededRule (cap len del srcLen : Nat) : Nat := (len - del + srcLen) - cap
+
+/-- `vec_replace_impl(dst, lo..hi, src)` with the reserve request given by `rule`: clamp the range,
+reserve, `ptr::copy` the tail from `off + del` to `off + srcLen`, `copy_nonoverlapping` the
+replacement to `off`, `set_len(len - del + srcLen)`. -/
+def St.strReplaceWith (rule : Nat → Nat → Nat → Nat → Nat) (s : St) (id lo hi : Nat) (src : List Nat) : St :=
+  let (cap, len) := strDims s id
+  let off := min lo len
+  let del := min (hi - off) (len - off)
+  if del = 0 ∧ src.length = 0 then s else
+  let tail := len - off - del
+  let bytes := src.toArray
+  match strEnsure s id (reserveCap cap len (rule cap len del src.length)) with
+  | none => s
+  | some s1 =>
+      strWrite s1 id
+        (fun beg m => (m.copy (beg + off + del) (beg + off + src.length) tail).store (beg + off) src.length (srcAt bytes))
+        (len - del + src.length)
+
+/-- The string (its bytes) held in a buffer. -/
+def Block.content (b : Block) : List Nat := (List.range b.used).map b.data
+
+def strContent (s : St) (id : Nat) : List Nat :=
+  match findBlk s.live id with
+  | some b => b.content
+  | none => []
+
+/-- `str::find`: byte index of the first occurrence (`"".find("") = Some(0)`); `i` = bytes already
+skipped. -/
+def findSubFrom (needle : List Nat) : List Nat → Nat → Option Nat
+  | [], i => if needle.isEmpty then some i else none
+  | h :: t, i => if needle.isPrefixOf (h :: t) then some i else findSubFrom needle t (i + 1)
+
+def findSub (hay needle : List Nat) : Option Nat := findSubFrom needle hay 0
+
+/-- `str::is_char_boundary(i)` on a string of `len` UTF-8 bytes `byte 0 …`. -/
+def isCharBoundary (len : Nat) (byte : Nat → Nat) (i : Nat) : Bool :=
+  i == 0 || i == len || (i < len && (byte i < 128 || byte i ≥ 192))
+
+/-- The two assertions of `ArenaString::replace_range(lo..hi, _)` (`hi = none`: `lo..`) on the
+string in block `id`: when one fails the real code panics before it touches anything. -/
+def replaceRangeAccepts (s : St) (id lo : Nat) (hi : Option Nat) : Bool :=
+  match findBlk s.live id with
+  | some b => isCharBoundary b.used b.data lo && (hi.map (isCharBoundary b.used b.data)).getD true
+  | none => lo == 0 && (hi.map (· == 0)).getD true
+
+/-- The specification of `replace_range`: what the bytes should be afterwards. -/
+def replaceBytes (c : List Nat) (off del : Nat) (src : List Nat) : List Nat :=
+  c.take off ++ src ++ c.drop (off + del)
+
+/-- One client operation. -/
+def step (s : St) : Op → St
+  | .alloc id bytes align zeroed => s.allocBlk id bytes align zeroed
+  | .grow id newSize => s.growBlk id newSize
+  | .shrink id newSize => s.shrinkBlk id newSize
   | .store id f =>
       match findBlk s.live id with
       | none => s
@@ -226,6 +388,39 @@ def step (s : St) : Op → St
           if saved ≤ s.a.offset then
             { a := s.a.release saved, live := below s.live saved, borrows := rest }
           else { s with borrows := rest }
+  | .sReserve id additional exact => s.strReserve id additional exact
+  | .sPush id src => s.strPush id src
+  | .sShrink id => s.strShrink id
+  | .sClear id => strWrite s id (fun _ m => m) 0
+  | .sReplace id lo hi src => s.strReplaceWith pinnedRule id lo hi src
+  | .sOnce id old new =>
+      match findSub (strContent s id) old with
+      | none => s
+      | some at_ => s.strReplaceWith pinnedRule id at_ (at_ + old.length) new
+
+/-- Does the operation end in `handle_alloc_error` (the allocator refuses the buffer `Vec::reserve`
+asks for)?  The process aborts; `step` leaves the state alone (`Props/C11.lean: step_abort_clean`). -/
+def aborts (s : St) : Op → Bool
+  | .sReserve id additional exact =>
+      let (cap, len) := strDims s id
+      (strEnsure s id (if exact then reserveExactCap cap len additional else reserveCap cap len additional)).isNone
+  | .sPush id src =>
+      let (cap, len) := strDims s id
+      (strEnsure s id (reserveCap cap len src.length)).isNone
+  | .sReplace id lo hi src =>
+      let (cap, len) := strDims s id
+      let off := min lo len
+      let del := min (hi - off) (len - off)
+      !(del == 0 && src.length == 0) && (strEnsure s id (reserveCap cap len (pinnedRule cap len del src.length))).isNone
+  | .sOnce id old new =>
+      match findSub (strContent s id) old with
+      | none => false
+      | some at_ =>
+          let (cap, len) := strDims s id
+          let off := min at_ len
+          let del := min (at_ + old.length - off) (len - off)
+          !(del == 0 && new.length == 0) && (strEnsure s id (reserveCap cap len (pinnedRule cap len del new.length))).isNone
+  | _ => false
 
 def run (s : St) : List Op → St
   | [] => s
